@@ -10,8 +10,10 @@ TB = ("Trusted: Coq 8.16.1 kernel/coqc (no native_compute), no axioms (Print Ass
 DIFF = (" The model is tied to /repo on every run by regenerating the can_catch/exit_code tables from src/error.rs and by a "
         "differential run of the extracted model against the real library (Rust driver over the public API, real construct!) "
         "on generated cases under the property's projection (outcome class; value; help level; for failures WHICH error message "
-        "is reported: the text of the library must fit the frame of the message kind -- and carry the payload -- the model "
-        "predicts); a property-specific oracle on the implementation's outputs "
+        "is reported and its TEXT: Model/Message.v transcribes Message::render and the extracted model's stderr text is "
+        "compared byte for byte with the library's for every failure reported at the top level on a UTF-8 line; for failures "
+        "handed out of a subcommand or lossy lines the text must fit the frame of the message kind -- and carry the payload -- "
+        "the model predicts); a property-specific oracle on the implementation's outputs "
         "alone searches for a concrete failing input.")
 
 CHECKS = {
@@ -41,8 +43,10 @@ CHECKS = {
  "C06": ("proof", "Theorems in coq/Props/C06.v for the evaluator of ANY inner parser: the catchable messages are exactly six (table "
          "regenerated from src/error.rs); conversion/parse/guard failures are final and carry the text; optional, many, some, "
          "count, last, fallback(_with) pass a final error on unchanged at any iteration; guard/parse/map/hide and construct! "
-         "never turn an error into a value; absence is catchable. C06_message_text (stderr carries the text at top level) is "
-         "partial: decided by the oracle (every typed occurrence replaced by invalid text; invalid environment values)." + DIFF,
+         "never turn an error into a value; absence is catchable. The message carries the text: C06_message_carries_conversion_text / _guard_text -- the document "
+         "Message::render (Model/Message.v) builds for a conversion/parse failure ends with `: ` + the conversion error, for "
+         "a guard failure with the guard's message, and render's first stage keeps these kinds (C06_message_kinds_kept); the "
+         "oracle (every typed occurrence replaced by invalid text; invalid environment values) searches the implementation." + DIFF,
          "4/C06", "Rocq proof (catch table + per-wrapper propagation laws) over a hand-written model + differential correspondence + invalid-value oracle"),
  "C07": ("proof", "Theorems in coq/Props/C07.v: the full decision rule of or_else (deeper path wins; only success wins; both "
          "succeed: leftmost differing consumed item decides, ties to the first listed; loser's items become live conflicts), "
@@ -132,7 +136,8 @@ CHECKS = {
          "4/C20", "Rocq proof (feature switches inert in the model) + five feature builds of the harness diffed on one corpus"),
  "C11": ("proof", "PARTIAL by nature. Theorems in coq/Props/C11.v about the model of run / print_message / exit_code / current_args: "
          "status 0 exactly for value/help/version/completion and 1 exactly for failures (exit_code regenerated from "
-         "src/error.rs), help/version/completion on stdout only, failures on stderr only with the non-empty `Error: ` prefix, "
+         "src/error.rs), help/version/completion on stdout only, failures on stderr only with the non-empty `Error: ` prefix and (C11_message_not_empty) a non-empty text rendered by "
+         "Message::render for every kind whose text is not the user's own, "
          "the body is reached iff a value was produced, the program name is the UTF-8 file name of argv[0]; "
          "C11_no_request_no_stdout_partial -- for every definition without adjacent whose levels carry a default-like Info, a "
          "line that holds no help flag never ends on stdout or in completion output (QuietLaws.v, mutual induction over the "
@@ -224,8 +229,10 @@ CHECKS = {
          "C04_flat_fragment_total / C04_flat_level_total: the same through the token-list interpreter. NOT theorems: adjacent "
          "groups with `any`, subcommands or nested groups as members, or without a first "
          "item (retry loop fuelled; FUEL and the panic sites are explicit outcomes compared with the implementation; one class "
-         "is a known finding, two were repaired by fix: commits), the panic sites of message rendering and "
-         "completion (compared per run; one repaired), purity (by construction in Gallina; tied by re-running). "
+         "is a known finding, two were repaired by fix: commits), that the evaluator only reports messages whose recorded "
+         "positions are items of the line (under that premise error rendering returns: C04_error_rendering_returns_partial, "
+         "C04_missing_summary_returns_partial; the model's `None` = the library's panic, compared per run), the panic sites "
+         "of completion (compared per run; one repaired), purity (by construction in Gallina; tied by re-running). "
          "Implementation side: every case under catch_unwind + watchdog; `twice` (same OptionParser, same vector) and `history` "
          "(one OptionParser: parse, completion at revisions 0/1/7/8/9 with and without an application name, html/markdown/"
          "manpage; two rounds must be identical).",
